@@ -231,7 +231,7 @@ func c18(c *Ctx) {
 		R.Check("C18.cancel-group", "C18.cancel-group/reached", c.rel(p.Pos(deadStore.Pos())), "the sibling cancellation is reached on every path after the DEAD transition", okLoop, "early return before the sibling loop")
 	}
 	for _, r := range allReturns(died) {
-		fs := facts.Atoms(facts.At(r, nil))
+		fs := facts.Atoms(acceptFacts(r))
 		isDone := false
 		for _, a := range fs {
 			if a == DONE+" == "+nT+".state" || a == nT+".state == "+DONE {
@@ -368,6 +368,37 @@ func c18(c *Ctx) {
 					good = false
 				}
 			}
+			okBo = good
+		}
+	})
+	// the same variable when it is captured by the reschedule closure (a cell, not a phi)
+	eachInstr(gc, func(i ssa.Instruction) {
+		al, ok := i.(*ssa.Alloc)
+		if !ok || facts.LocalName(al.Parent(), al.Comment) != "bo" || al.Referrers() == nil {
+			return
+		}
+		good, n := true, 0
+		for _, r := range *al.Referrers() {
+			st, isStore := r.(*ssa.Store)
+			if !isStore || st.Addr != ssa.Value(al) {
+				continue
+			}
+			n++
+			isDead := false
+			for _, a := range facts.Atoms(facts.At(st, nil)) {
+				if strings.HasPrefix(a, DEAD+" == ") && strings.HasSuffix(a, ".state") || strings.HasSuffix(a, ".state == "+DEAD) {
+					isDead = true
+				}
+			}
+			if k0, isK := constInt(st.Val); isK && k0 == 0 {
+				if isDead {
+					good = false
+				}
+			} else if !strings.Contains(facts.Term(st.Val), "NextBackOff") || !isDead {
+				good = false
+			}
+		}
+		if n >= 2 {
 			okBo = good
 		}
 	})
@@ -545,18 +576,18 @@ func c18statePred(fn *ssa.Function, states []string, depth int) bool {
 				return
 			}
 			n++
-			if !guarded(r.Block(), facts.At(r, nil)) {
+			if !guarded(r.Block(), acceptFacts(r)) {
 				okAll = false
 			}
 		case *ssa.Call:
 			n++
-			if !c18statePred(v.Call.StaticCallee(), states, depth+1) && !guarded(r.Block(), facts.At(r, nil)) {
+			if !c18statePred(v.Call.StaticCallee(), states, depth+1) && !guarded(r.Block(), acceptFacts(r)) {
 				okAll = false
 			}
 		default:
 			for _, w := range facts.DNF(v, true) {
 				n++
-				if !guarded(r.Block(), append(append([]facts.Fact{}, w...), facts.At(r, nil)...)) {
+				if !guarded(r.Block(), append(append([]facts.Fact{}, w...), acceptFacts(r)...)) {
 					okAll = false
 				}
 			}
